@@ -7,6 +7,7 @@ AS_H = 'src/tbb/arena_slot.h'
 TD_CPP = 'src/tbb/task_dispatcher.cpp'
 PF_H = 'include/oneapi/tbb/parallel_for.h'
 MB_H = 'src/tbb/mailbox.h'
+CV_H = 'include/oneapi/tbb/concurrent_vector.h'
 CHM_H = 'include/oneapi/tbb/concurrent_hash_map.h'
 CQB_H = 'include/oneapi/tbb/detail/_concurrent_queue_base.h'
 SRW_H = 'include/oneapi/tbb/spin_rw_mutex.h'
@@ -419,6 +420,33 @@ MUTANTS = [
     dict(name='c10-rehash-unmarked', prop='C10', clause='D2', edits=[
         (CHM_H, "        b_new->node_list.store(reinterpret_cast<node_base*>(empty_rehashed_flag), std::memory_order_release); // mark rehashed\n        hashcode_type mask = (hashcode_type(1) << tbb::detail::log2(hash)) - 1; // get parent mask from the topmost bit\n        bucket_accessor b_old( this, hash & mask );",
          "        hashcode_type mask = (hashcode_type(1) << tbb::detail::log2(hash)) - 1; // get parent mask from the topmost bit\n        bucket_accessor b_old( this, hash & mask );\n        b_new->node_list.store(reinterpret_cast<node_base*>(empty_rehashed_flag), std::memory_order_release); // mark rehashed")]),
+    # ---------------------------------------------------------------- C11
+    dict(name='c11-int-delta-regression', prop='C11', clause='D6', edits=[
+        (CV_H, "        if (old_size < new_size) {\n            return internal_grow(old_size, new_size, args...);\n        }",
+         "        int delta = static_cast<int>(new_size) - static_cast<int>(old_size);\n        if (delta > 0) {\n            return internal_grow(old_size, new_size, args...);\n        }")]),
+    dict(name='c11-unsigned-delta', prop='C11', clause='D6', edits=[
+        (CV_H, "        if (old_size < new_size) {\n            return internal_grow(old_size, new_size, args...);\n        }",
+         "        unsigned delta = static_cast<unsigned>(new_size - old_size);\n        if (old_size < new_size && delta != 0) {\n            return internal_grow(old_size, new_size, args...);\n        }")]),
+    dict(name='c11-grow_by-load-store', prop='C11', clause='D1', edits=[
+        (CV_H, "        size_type start_idx = this->my_size.fetch_add(delta);", "        size_type start_idx = this->my_size.load(); this->my_size.store(start_idx + delta);")]),
+    dict(name='c11-at-least-can-shrink', prop='C11', clause='D1', edits=[
+        (CV_H, "        while (old_size < new_size && !this->my_size.compare_exchange_weak(old_size, new_size))", "        while (!this->my_size.compare_exchange_weak(old_size, new_size))")]),
+    dict(name='c11-segment-store-relaxed', prop='C11', clause='D3', edits=[
+        (CV_H, "                    table[seg_index].store(new_segment, std::memory_order_release);\n                });", "                    table[seg_index].store(new_segment, std::memory_order_relaxed);\n                });")]),
+    dict(name='c11-no-failure-tag', prop='C11', clause='D3', edits=[
+        (CV_H, "                } ).on_completion( [&] {\n                    table[seg_index].store(new_segment, std::memory_order_release);\n                });",
+         "                } ).on_completion( [&] {\n                });\n                table[seg_index].store(new_segment, std::memory_order_release);")]),
+    dict(name='c11-enable-segment-store', prop='C11', clause='D3', edits=[
+        ('include/oneapi/tbb/detail/_segment_table.h', "            if (!table[seg_index].compare_exchange_strong(disabled_segment, new_segment - segment_base(seg_index))) {",
+         "            if (table[seg_index].load() != nullptr || (table[seg_index].store(new_segment - segment_base(seg_index)), false)) {")]),
+    dict(name='c11-emplace-guard-late', prop='C11', clause='D4', edits=[
+        (CV_H, "        segment_table_allocator_traits::construct(base_type::get_allocator(), element_address, std::forward<Args>(args)...);\n        value_guard.dismiss();",
+         "        value_guard.dismiss();\n        segment_table_allocator_traits::construct(base_type::get_allocator(), element_address, std::forward<Args>(args)...);")]),
+    dict(name='c11-growth-compacts', prop='C11', clause='D2', edits=[
+        (CV_H, "        size_type start_idx = this->my_size.fetch_add(delta);\n        size_type end_idx = start_idx + delta;",
+         "        size_type start_idx = this->my_size.fetch_add(delta);\n        size_type end_idx = start_idx + delta;\n        if (end_idx > 1000000) shrink_to_fit();")]),
+    dict(name='c11-segment-base-off', prop='C11', clause='D5', edits=[
+        ('include/oneapi/tbb/detail/_segment_table.h', "        return size_type(1) << index & ~size_type(1);", "        return size_type(1) << index & ~size_type(3);")]),
 ]
 
 BENIGN = [
@@ -454,4 +482,7 @@ BENIGN = [
         (CQ_H, "        ticket_type k = my_queue_representation->tail_counter++;", "        ticket_type k = my_queue_representation->tail_counter.fetch_add(1);")]),
     dict(name='c10-b-erase-writer-from-start', prop='C10', edits=[
         (CHM_H, "            // get bucket\n            bucket_accessor b( this, hash & mask );\n        search:", "            // get bucket\n            bucket_accessor b( this, hash & mask, true );\n        search:")]),
+    dict(name='c11-b-size_type-delta', prop='C11', edits=[
+        (CV_H, "        if (old_size < new_size) {\n            return internal_grow(old_size, new_size, args...);\n        }",
+         "        size_type delta = old_size < new_size ? new_size - old_size : 0;\n        if (delta > 0) {\n            return internal_grow(old_size, new_size, args...);\n        }")]),
 ]
